@@ -179,7 +179,15 @@ impl<'a> sval_ref::ValueRef<'a> for EmitValue<'a> {
 
         impl<'sval, S: sval::Stream<'sval>> sval::Stream<'sval> for AnyStream<S> {
             fn null(&mut self) -> sval::Result {
-                self.stream.null()
+                // An `AnyValue` with no variant set. A bare `null` is not an element of a
+                // repeated protobuf field, so arrays would silently lose their null elements
+                // (and differ from the JSON encoding, which keeps them).
+                if self.in_map_key {
+                    return self.stream.null();
+                }
+
+                self.stream.record_tuple_begin(None, None, None, Some(0))?;
+                self.stream.record_tuple_end(None, None, None)
             }
 
             fn bool(&mut self, value: bool) -> sval::Result {
